@@ -4636,7 +4636,12 @@ func (t *Terminal) Loop() error {
 								case <-ctx.Done():
 									break Loop
 								case <-timer.C:
-									t.reqBox.Set(reqPreviewDelayed, version)
+									// Nothing to announce if output was already put on the screen (after a clear
+									// code it is shown under a lower version, which the check at the receiving
+									// end does not recognize)
+									if !rendered.Get() {
+										t.reqBox.Set(reqPreviewDelayed, version)
+									}
 								case request := <-t.killChan:
 									if request.seq < seq {
 										// The request was for the previous commands
